@@ -42,7 +42,7 @@ man = dict(
                   serves_properties=[c["property_id"] for c in checks],
                   kind_free_text="Lean 4 machine-checked theorems about executable models of the code; models tied to /repo on every run by a translator (tables/constants) and a differential correspondence check (algorithms)")],
     checks=checks,
-    notes="See DESIGN.md. Exit codes: 0 held / 1 VIOLATION line / 2 infrastructure. known_findings.json lists genuine defects (open ones print KNOWN-FINDING lines).",
+    notes="See DESIGN.md (§13 for what was built). Exit codes: 0 held / 1 VIOLATION line / 2 infrastructure. No hooks were added to the repository (every observation point is a public API call); the only source commits are the unguarded `fix:` commits listed with their findings in known_findings.json (`fixed` entries: commit, witness, reverse patch under harness/mutants/fixed/). Open findings print KNOWN-FINDING lines and do not fail a check; a different violation of the same property still does.",
     not_applicable=na,
 )
 json.dump(man, open(os.path.join(VERIF, "MANIFEST.json"), "w"), indent=1)
